@@ -629,7 +629,7 @@ Section Round.
 
   Lemma combine3_proj (a : list text) (b : matrix) (c : list (option text)) :
     length b = length a -> length c = length a ->
-    map fst (combine a (combine b c)) = a
+    map (fun r : rowrec => fst r) (combine a (combine b c)) = a
     /\ map (fun r : rowrec => fst (snd r)) (combine a (combine b c)) = b
     /\ map (fun r : rowrec => snd (snd r)) (combine a (combine b c)) = c.
   Proof.
@@ -645,6 +645,65 @@ Section Round.
     intros Hne Hav. unfold feed.
     rewrite split_when_join; [|apply GB|exact Hav|exact Hne].
     destruct keep; [apply from_tsv_keepends|reflexivity].
+  Qed.
+
+  (* ---------------- what the reader makes of written lines ---------------- *)
+  Lemma extract_written l cols numeric :
+    Forall row_ok l -> l <> [] ->
+    cols <> [] -> Forall (fun p => ~ In TAB p) cols ->
+    is_space (last (last cols []) 0) = false -> last cols [] <> [] ->
+    Forall (fun r => is_some (snd (snd r)) = negb numeric) l ->
+    forallb (fun r => isfloat parse_num (lastf r)) l = numeric ->
+    extract_tsv parse_num (CONSTRUCTED :: join TAB (OCN :: cols) :: map line_of l)
+    = ROk (mkE (if numeric then cols else removelast cols)
+               (map (fun r : rowrec => fst r) l)
+               (all_triples 0 (map (fun r : rowrec => fst (snd r)) l))
+               (if numeric then None else Some (map lastf l))
+               (if numeric then None else Some (last cols []))).
+  Proof.
+    intros Hrows Hl Hc1 Hc2 Hc3 Hc4 Hcells Hnum.
+    destruct l as [|r0 l']; [congruence|].
+    pose proof (Forall_inv Hrows) as Hr0.
+    unfold extract_tsv. cbn [map].
+    rewrite (find_header_written cols _ r0 (map line_of l') Hr0 Hc1 Hc2 Hc3 Hc4 eq_refl).
+    cbn [skipn].
+    change (line_of r0 :: map line_of l') with (map line_of (r0 :: l')).
+    rewrite (last_numeric_lines _ Hrows), Hnum.
+    rewrite (data_rows_lines numeric (r0 :: l') Hrows Hcells).
+    destruct numeric; cbn [orb Nat.eqb].
+    - rewrite !map_map. reflexivity.
+    - destruct cols as [|c0 cols']; [congruence|]. rewrite !map_map. reflexivity.
+  Qed.
+
+  (* the constructor on what extract_written returns *)
+  Lemma construct_written (oids sids : list text) (mx : matrix) (md : option (list text)) (name : option text) :
+    length mx = length oids -> rect (length sids) mx -> NoDup oids -> NoDup sids ->
+    (if negb (in_shape (length oids) (length sids) (all_triples 0 mx)) then RErr E_VALUE
+     else if tdup oids || tdup sids then RErr E_TABLE
+     else ROk (mkX oids sids (dense_of (length oids) (length sids) (all_triples 0 mx))
+                   (match md with
+                    | None => None
+                    | Some l => Some (map (fun v => [(match name with Some n => n | None => [] end, process v)]) l)
+                    end)))
+    = ROk (mkX oids sids mx
+               (match md with
+                | None => None
+                | Some l => Some (map (fun v => [(match name with Some n => n | None => [] end, process v)]) l)
+                end)).
+  Proof.
+    intros W1 W2 W3 W4. rewrite <- W1. rewrite (in_shape_all_triples _ _ W2). cbn [negb].
+    apply tdup_false_NoDup in W3. apply tdup_false_NoDup in W4. rewrite W3, W4. cbn [orb].
+    rewrite (dense_of_all_triples _ _ W2). reflexivity.
+  Qed.
+
+  Lemma sids_cols c : x_sids c <> [] -> Forall id_safe (x_sids c) ->
+    is_space (last (last (x_sids c) []) 0) = false /\ last (x_sids c) [] <> []
+    /\ Forall (fun p => ~ In TAB p) (x_sids c) /\ Forall (avoids brk) (x_sids c).
+  Proof.
+    intros Hs Hsi.
+    pose proof (last_In (x_sids c) [] Hs) as Hin. pose proof Hsi as Hsi'. rewrite Forall_forall in Hsi'.
+    split; [apply (Hsi' _ Hin)|]. split; [apply (Hsi' _ Hin)|].
+    split; (eapply Forall_impl; [|exact Hsi]); intros t Ht; apply Ht.
   Qed.
 
   (* ---------------- round trip without a metadata column ---------------- *)
@@ -670,45 +729,454 @@ Section Round.
     { intros E. rewrite E in P1. simpl in P1. congruence. }
     assert (Hhl : header_line c no_opts = join TAB (OCN :: x_sids c)).
     { rewrite header_line_join by exact Hs. simpl hv_l. rewrite app_nil_r. reflexivity. }
+    destruct (sids_cols c Hs (proj2 Hids)) as (Hs1 & Hs2 & Hs3 & Hs4).
     assert (Hhav : avoids brk (header_line c no_opts)).
-    { rewrite Hhl. apply avoids_join; [apply GB|]. constructor; [apply GB|].
-      destruct Hids as [_ Hsi]. eapply Forall_impl; [|exact Hsi]. intros t Ht. apply Ht. }
+    { rewrite Hhl. apply avoids_join; [apply GB|]. constructor; [apply GB|exact Hs4]. }
     rewrite feed_written; [|discriminate|constructor; [apply GB|constructor; [exact Hhav|apply lines_avoid; exact Hrows]]].
-    (* the reader *)
-    destruct l as [|r0 l'] eqn:El; [congruence|].
-    inversion Hrows as [|? ? Hr0 Hr']; subst.
-    unfold from_tsv, extract_tsv.
-    cbn [map].
-    assert (Hsl : is_space (last (last (x_sids c) []) 0) = false /\ last (x_sids c) [] <> [] /\ Forall (fun p => ~ In TAB p) (x_sids c)).
-    { destruct Hids as [_ Hsi]. split; [|split].
-      - pose proof (last_In (x_sids c) [] Hs) as Hin. rewrite Forall_forall in Hsi. apply (Hsi _ Hin).
-      - pose proof (last_In (x_sids c) [] Hs) as Hin. rewrite Forall_forall in Hsi. apply (Hsi _ Hin).
-      - eapply Forall_impl; [|exact Hsi]. intros t Ht. apply Ht. }
-    destruct Hsl as (Hs1 & Hs2 & Hs3).
-    rewrite (find_header_written (x_sids c) (header_line c no_opts) r0 (map line_of l') Hr0 Hs Hs3 Hs1 Hs2 Hhl).
-    cbn [skipn].
-    change (line_of r0 :: map line_of l') with (map line_of (r0 :: l')).
-    rewrite (last_numeric_lines _ Hrows).
-    assert (Hnum : forallb (fun r => isfloat parse_num (lastf r)) (r0 :: l') = true).
-    { apply forallb_forall. intros r Hin. rewrite Forall_forall in Hrows. specialize (Hrows r Hin).
-      assert (Hcn : snd (snd r) = None).
-      { assert (In (snd (snd r)) (map (fun r : rowrec => snd (snd r)) (r0 :: l'))) by (apply (in_map (fun r : rowrec => snd (snd r))); exact Hin).
-        rewrite P3, Ecells in H. apply in_map_iff in H. destruct H as [? [E _]]. congruence. }
-      unfold lastf. rewrite Hcn. destruct Hrows as (_ & Hv & Hn & _).
+    assert (Hcn : forall r, In r l -> snd (snd r) = None).
+    { intros r Hin.
+      assert (H : In (snd (snd r)) (map (fun r : rowrec => snd (snd r)) l)) by (apply (in_map (fun r : rowrec => snd (snd r))); exact Hin).
+      rewrite P3, Ecells in H. apply in_map_iff in H. destruct H as [? [E _]]. congruence. }
+    unfold from_tsv. rewrite Hhl.
+    rewrite (extract_written l (x_sids c) true Hrows Hl Hs Hs3 Hs1 Hs2).
+    - cbn [e_md e_oids e_sids e_data e_name]. rewrite P1, P2.
+      apply (construct_written (x_oids c) (x_sids c) (x_mat c) None None W1 W2 W3 W4).
+    - apply Forall_forall. intros r Hin. rewrite (Hcn r Hin). reflexivity.
+    - apply forallb_forall. intros r Hin. pose proof Hrows as Hr. rewrite Forall_forall in Hr. specialize (Hr r Hin).
+      unfold lastf. rewrite (Hcn r Hin). destruct Hr as (_ & Hv & Hn & _).
       rewrite Forall_forall in Hn. destruct (Hn _ (last_In _ 0 Hv)) as (Hp & _).
-      unfold isfloat. rewrite Hp. reflexivity. }
-    rewrite Hnum. cbn [orb].
-    rewrite (data_rows_lines true (r0 :: l') Hrows).
-    2:{ apply Forall_forall. intros r Hin.
-        assert (In (snd (snd r)) (map (fun r : rowrec => snd (snd r)) (r0 :: l'))) by (apply (in_map (fun r : rowrec => snd (snd r))); exact Hin).
-        rewrite P3, Ecells in H. apply in_map_iff in H. destruct H as [? [E _]]. rewrite <- E. reflexivity. }
-    cbn [e_md e_oids e_sids e_data e_name].
-    rewrite !map_map. cbn [fst snd].
-    assert (P1' : map (fun x : text * (list Z * option text) => fst x) (r0 :: l') = x_oids c) by exact P1.
-    assert (P2' : map (fun x : text * (list Z * option text) => fst (snd x)) (r0 :: l') = x_mat c) by exact P2.
-    rewrite P1', P2'.
-    rewrite <- W1. rewrite (in_shape_all_triples _ _ W2). cbn [negb].
-    apply tdup_false_NoDup in W3. apply tdup_false_NoDup in W4. rewrite W3, W4. cbn [orb].
-    rewrite (dense_of_all_triples _ _ W2). reflexivity.
+      unfold isfloat. rewrite Hp. reflexivity.
+  Qed.
+
+  (* ---------------- round trip with one observation-metadata category ---------------- *)
+  (* the formatted texts of the exported category, in observation order *)
+  Definition md_texts (key : text) (c : ttab) : list text :=
+    match x_omd c with Some es => map (fun e => format (md_get key e)) es | None => [] end.
+
+  Theorem roundtrip_md c keep key hv es :
+    xwf c -> x_empty c = false -> ids_tsv_safe c -> faithful_on c ->
+    key <> [] -> hv <> [] -> txt_ok hv -> is_space (last hv 0) = false ->
+    x_omd c = Some es ->
+    Forall txt_ok (md_texts key c) ->
+    Exists (fun m => isfloat parse_num (strip m) = false) (md_texts key c) ->
+    roundtrip fmt parse_num format process brk keep c (mkO (Some key) (Some hv))
+    = ROk (mkX (x_oids c) (x_sids c) (x_mat c)
+               (Some (map (fun m => [(hv, process (strip m))]) (md_texts key c)))).
+  Proof.
+    intros W Hne Hids Hf Hkey Hhv Hhvok Hhvl Homd Hms Hex.
+    assert (Ho : x_oids c <> []) by (unfold x_empty in Hne; destruct (x_oids c); [discriminate|discriminate]).
+    assert (Hs : x_sids c <> []) by (unfold x_empty in Hne; destruct (x_oids c), (x_sids c); try discriminate).
+    set (o := mkO (Some key) (Some hv)).
+    unfold roundtrip, to_tsv_text, to_tsv. rewrite Hne. simpl header_key. simpl header_value. cbn [is_some andb negb].
+    set (ms := md_texts key c) in *.
+    assert (Ems : ms = map (fun e => format (md_get key e)) es) by (unfold ms, md_texts; rewrite Homd; reflexivity).
+    set (cells := md_cells format c o).
+    assert (Ecells : cells = map Some ms).
+    { unfold cells, md_cells, o. simpl header_key. rewrite Homd. destruct key as [|k0 ks]; [congruence|].
+      rewrite Ems, map_map. reflexivity. }
+    pose proof W as (W1 & W2 & W3 & W4 & W5). rewrite Homd in W5.
+    assert (Lc : length cells = length (x_oids c)).
+    { rewrite Ecells, map_length, Ems, map_length. exact W5. }
+    assert (Fc : Forall (fun cell : option text => match cell with Some m => txt_ok m | None => True end) cells).
+    { rewrite Ecells. apply Forall_forall. intros x Hx. apply in_map_iff in Hx. destruct Hx as [m [E Hin]]. subst.
+      rewrite Forall_forall in Hms. apply Hms. exact Hin. }
+    pose proof (rows_ok c cells W Hs Hids Hf Lc Fc) as Hrows.
+    rewrite row_lines_map. set (l := combine (x_oids c) (combine (x_mat c) cells)) in *.
+    destruct (combine3_proj (x_oids c) (x_mat c) cells W1 Lc) as (P1 & P2 & P3). fold l in P1, P2, P3.
+    assert (Hl : l <> []).
+    { intros E. rewrite E in P1. simpl in P1. congruence. }
+    assert (Hhl : header_line c o = join TAB (OCN :: (x_sids c ++ [hv]))).
+    { rewrite header_line_join by exact Hs. unfold hv_l, o. simpl header_value. destruct hv as [|h0 hs]; [congruence|].
+      rewrite app_comm_cons. reflexivity. }
+    destruct (sids_cols c Hs (proj2 Hids)) as (Hs1 & Hs2 & Hs3 & Hs4).
+    assert (Hhav : avoids brk (header_line c o)).
+    { rewrite Hhl. apply avoids_join; [apply GB|]. constructor; [apply GB|].
+      apply Forall_app. split; [exact Hs4|constructor; [apply Hhvok|constructor]]. }
+    rewrite feed_written; [|discriminate|constructor; [apply GB|constructor; [exact Hhav|apply lines_avoid; exact Hrows]]].
+    assert (Hlast : map lastf l = map strip ms).
+    { assert (E : map lastf l = map (fun cell => match cell with Some m => strip m | None => [] end)
+                                   (map (fun r : rowrec => snd (snd r)) l)).
+      { rewrite map_map. apply map_ext_in. intros r Hin.
+        assert (H : In (snd (snd r)) (map (fun r : rowrec => snd (snd r)) l)) by (apply (in_map (fun r : rowrec => snd (snd r))); exact Hin).
+        rewrite P3, Ecells in H. apply in_map_iff in H. destruct H as [m [E _]]. unfold lastf. rewrite <- E. reflexivity. }
+      rewrite E, P3, Ecells, map_map. reflexivity. }
+    unfold from_tsv. rewrite Hhl.
+    rewrite (extract_written l (x_sids c ++ [hv]) false Hrows Hl).
+    - cbn [e_md e_oids e_sids e_data e_name]. rewrite P1, P2, removelast_snoc, last_snoc, Hlast.
+      rewrite (construct_written (x_oids c) (x_sids c) (x_mat c) (Some (map strip ms)) (Some hv) W1 W2 W3 W4).
+      rewrite map_map. reflexivity.
+    - destruct (x_sids c); discriminate.
+    - apply Forall_app. split; [exact Hs3|constructor; [apply Hhvok|constructor]].
+    - rewrite !last_snoc. exact Hhvl.
+    - rewrite last_snoc. exact Hhv.
+    - apply Forall_forall. intros r Hin.
+      assert (H : In (snd (snd r)) (map (fun r : rowrec => snd (snd r)) l)) by (apply (in_map (fun r : rowrec => snd (snd r))); exact Hin).
+      rewrite P3, Ecells in H. apply in_map_iff in H. destruct H as [m [E _]]. rewrite <- E. reflexivity.
+    - assert (E : forallb (fun r => isfloat parse_num (lastf r)) l = forallb (isfloat parse_num) (map lastf l)).
+      { clear. induction l as [|r l IH]; simpl; [reflexivity|]. rewrite IH. reflexivity. }
+      rewrite E, Hlast. clear E.
+      assert (E2 : forallb (isfloat parse_num) (map strip ms) = forallb (fun m => isfloat parse_num (strip m)) ms).
+      { clear. induction ms as [|m ms IH]; simpl; [reflexivity|]. rewrite IH. reflexivity. }
+      rewrite E2. apply forallb_false_Exists. exact Hex.
+  Qed.
+
+  (* when the processing function inverts the formatter the category itself comes back *)
+  Corollary roundtrip_md_inverse c keep key hv es :
+    xwf c -> x_empty c = false -> ids_tsv_safe c -> faithful_on c ->
+    key <> [] -> hv <> [] -> txt_ok hv -> is_space (last hv 0) = false ->
+    x_omd c = Some es ->
+    Forall txt_ok (md_texts key c) ->
+    Exists (fun m => isfloat parse_num (strip m) = false) (md_texts key c) ->
+    Forall (fun e => process (strip (format (md_get key e))) = md_get key e) es ->
+    roundtrip fmt parse_num format process brk keep c (mkO (Some key) (Some hv))
+    = ROk (mkX (x_oids c) (x_sids c) (x_mat c) (Some (map (fun e => [(hv, md_get key e)]) es))).
+  Proof.
+    intros W Hne Hids Hf Hkey Hhv Hhvok Hhvl Homd Hms Hex Hinv.
+    rewrite (roundtrip_md c keep key hv es W Hne Hids Hf Hkey Hhv Hhvok Hhvl Homd Hms Hex).
+    do 2 f_equal. unfold md_texts. rewrite Homd, map_map. f_equal. apply map_ext_in. intros e Hin.
+    rewrite Forall_forall in Hinv. rewrite (Hinv e Hin). reflexivity.
   Qed.
 End Round.
+
+(* ------------------------------------------------------------------ the three feeders *)
+Lemma good_brk_nl : good_brk brk_nl.
+Proof. repeat split; try reflexivity; apply Forall_forall; intros c H; vm_compute in H;
+  repeat (destruct H as [H|H]; [subst; reflexivity|]); contradiction. Qed.
+Lemma good_brk_univ : good_brk brk_univ.
+Proof. repeat split; try reflexivity; apply Forall_forall; intros c H; vm_compute in H;
+  repeat (destruct H as [H|H]; [subst; reflexivity|]); contradiction. Qed.
+Lemma good_brk_gz : good_brk brk_gz.
+Proof. repeat split; try reflexivity; apply Forall_forall; intros c H; vm_compute in H;
+  repeat (destruct H as [H|H]; [subst; reflexivity|]); contradiction. Qed.
+
+Lemma avoids_nl t : avoids brk_nl t <-> ~ In NL t.
+Proof.
+  unfold avoids, brk_nl. rewrite Forall_forall. split.
+  - intros H Hin. specialize (H _ Hin). rewrite Z.eqb_refl in H. discriminate.
+  - intros H c Hc. apply Z.eqb_neq. intros E. subst. contradiction.
+Qed.
+
+Lemma avoids_univ t : avoids brk_univ t <-> ~ In NL t /\ ~ In 13 t.
+Proof.
+  unfold avoids, brk_univ. rewrite Forall_forall. split.
+  - intros H. split; intros Hin; specialize (H _ Hin); discriminate.
+  - intros [H1 H2] c Hc. apply orb_false_iff. split; apply Z.eqb_neq; intros E; subst; contradiction.
+Qed.
+
+(* ------------------------------------------------------------------ header detection *)
+Definition cols_of (l : text) : list text := tl (split_on TAB (strip l)).
+Definition count_nonblank (ls : list text) : nat := length (filter (fun l => negb (blank l)) ls).
+
+Lemma find_header_blank mid : Forall (fun l => blank l = true) mid ->
+  forall rest h i, find_header (mid ++ rest) h i = find_header rest h i.
+Proof. induction 1 as [|l mid Hl Hm IH]; intros rest h i; simpl; [reflexivity|]. rewrite Hl. apply IH. Qed.
+
+(* The header is the LAST line starting with '#' in the leading block of comment and blank
+   lines, provided it has at least one column besides the first; the data start is counted in
+   non-blank lines only (blank lines do not advance the index, table.py:5206-5207). *)
+Lemma header_found pre h mid d rest :
+  Forall (fun l => blank l = true \/ starts_hash l = true) pre ->
+  blank h = false -> starts_hash h = true -> cols_of h <> [] ->
+  Forall (fun l => blank l = true) mid ->
+  blank d = false -> starts_hash d = false ->
+  forall hdr0 i0,
+  find_header (pre ++ h :: mid ++ d :: rest) hdr0 i0
+  = (Some (cols_of h), (i0 + count_nonblank pre + 1)%nat).
+Proof.
+  intros Hpre Hb Hh Hc Hmid Hdb Hdh.
+  induction Hpre as [|l pre Hl Hp IH]; intros hdr0 i0.
+  - cbn [app find_header]. rewrite Hb, Hh. cbn [negb]. rewrite (find_header_blank mid Hmid).
+    cbn [find_header]. rewrite Hdb, Hdh. cbn [negb]. fold (cols_of h).
+    destruct (cols_of h) eqn:E; [congruence|]. cbn [truthy]. f_equal. unfold count_nonblank. simpl. lia.
+  - cbn [app find_header]. unfold count_nonblank. cbn [filter].
+    destruct (blank l) eqn:El.
+    + cbn [negb]. rewrite IH. reflexivity.
+    + destruct Hl as [Hl|Hl]; [congruence|]. rewrite Hl. cbn [negb length]. rewrite IH.
+      f_equal. unfold count_nonblank. lia.
+Qed.
+
+(* without any '#' line the first non-blank line is the header and the data start behind it *)
+Lemma header_first_line pre d rest :
+  Forall (fun l => blank l = true) pre -> blank d = false -> starts_hash d = false ->
+  find_header (pre ++ d :: rest) None 0 = (Some (tl (split_on TAB (rstrip d))), 1%nat).
+Proof.
+  intros Hpre Hb Hh. rewrite (find_header_blank pre Hpre). cbn [find_header]. rewrite Hb, Hh. reflexivity.
+Qed.
+
+(* ------------------------------------------------------------------ the last-column heuristic *)
+Section Heuristic.
+  Variable parse_num : text -> option Z.
+
+  (* over lines given by their fields: the last column counts as numeric iff the stripped last
+     field of EVERY remaining line (data, comment or blank) is accepted by float() *)
+  Lemma last_col_numeric_iff (rows : list (list text)) :
+    Forall (fun fs => fs <> [] /\ Forall (fun p => ~ In TAB p) fs) rows ->
+    (last_numeric parse_num (map (join TAB) rows) = true
+     <-> Forall (fun fs => isfloat parse_num (strip (last fs [])) = true) rows).
+  Proof.
+    intros H. unfold last_numeric. rewrite forallb_forall, Forall_forall. split.
+    - intros A fs Hin. rewrite Forall_forall in H. destruct (H fs Hin) as [Hne Hnt].
+      specialize (A (join TAB fs) (in_map _ _ _ Hin)). unfold last_value in A.
+      rewrite split_on_join in A by assumption. exact A.
+    - intros A l Hin. apply in_map_iff in Hin. destruct Hin as [fs [E Hin]]. subst.
+      rewrite Forall_forall in H. destruct (H fs Hin) as [Hne Hnt].
+      unfold last_value. rewrite split_on_join by assumption. apply A. exact Hin.
+  Qed.
+
+  (* a blank line among the lines behind the header makes the last column "not numeric" as
+     soon as float('') is refused: this is why trailing blank lines are outside the format *)
+  Lemma blank_line_not_numeric ls : parse_num [] = None -> In [] ls -> last_numeric parse_num ls = false.
+  Proof.
+    intros Hp Hin. unfold last_numeric. apply forallb_false_Exists. apply Exists_exists.
+    exists []. split; [exact Hin|]. unfold isfloat, last_value. simpl. unfold strip, rstrip. simpl. rewrite Hp. reflexivity.
+  Qed.
+End Heuristic.
+
+(* ------------------------------------------------------------------ the sc_separated pair *)
+Lemma join2_join e r : join2 (e :: r) = join SEMI (e :: map (cons SP) r).
+Proof. simpl. f_equal. induction r as [|q r IH]; simpl; [reflexivity|]. rewrite IH. reflexivity. Qed.
+
+Lemma strip_sp_cons e : e <> [] -> edges_ok e -> strip (SP :: e) = e.
+Proof. intros Hne He. unfold strip. simpl lstrip. change (is_space SP) with true. cbv iota. apply (strip_edges e Hne He). Qed.
+
+(* a taxonomy-like value: a non-empty list of non-empty strings without ';' and without
+   leading/trailing blanks comes back from '; '.join followed by split(';') + strip *)
+Lemma sc_inverse (l : list text) :
+  l <> [] -> Forall (fun e => e <> [] /\ ~ In SEMI e /\ edges_ok e) l ->
+  proc_sc (strip (fmt_sc (tList (map tStr l)))) = tList (map tStr l).
+Proof.
+  intros Hne H. unfold fmt_sc, tList, tnth. cbn [tL nth].
+  assert (Es : map str_of (map tStr l) = l).
+  { rewrite map_map. rewrite <- (map_id l) at 2. apply map_ext. intros e. unfold str_of, tStr, tnth, tLZ, eLZ. cbn [tL nth].
+    rewrite map_map. rewrite <- (map_id e) at 2. apply map_ext. reflexivity. }
+  rewrite Es. destruct l as [|e r]; [congruence|].
+  inversion H as [|? ? He Hr]; subst. destruct He as (He1 & He2 & He3).
+  assert (Hst : strip (join2 (e :: r)) = join2 (e :: r)).
+  { apply strip_edges.
+    - destruct e; [congruence|discriminate].
+    - split.
+      + destruct e as [|c e']; [congruence|]. simpl. apply He3.
+      + destruct (snoc_exists (e :: r)) as [l' [x Ex]]; [discriminate|].
+        assert (Hx : x <> [] /\ edges_ok x).
+        { assert (In x (e :: r)) by (rewrite Ex; apply in_or_app; right; left; reflexivity).
+          rewrite Forall_forall in H. destruct (H x H0) as (A & _ & B). split; assumption. }
+        rewrite Ex. destruct l' as [|a l'].
+        * simpl. rewrite app_nil_r. apply Hx.
+        * change ((a :: l') ++ [x]) with (a :: (l' ++ [x])). rewrite join2_join, map_app. simpl map.
+          rewrite app_comm_cons, last_join_snoc by discriminate.
+          change (last (SP :: x) 0) with (last ([SP] ++ x) 0). rewrite last_app_ne by apply Hx. apply Hx. }
+  rewrite Hst. unfold proc_sc. rewrite join2_join.
+  rewrite split_on_join; [|constructor; [exact He2|]|discriminate].
+  - cbn [map]. rewrite (strip_edges e He1 He3).
+    assert (Em : map (fun e0 : text => tStr (strip e0)) (map (cons SP) r) = map tStr r).
+    { rewrite map_map. apply map_ext_in. intros q Hq. f_equal.
+      rewrite Forall_forall in Hr. destruct (Hr q Hq) as (A & _ & B). apply strip_sp_cons; assumption. }
+    rewrite Em. reflexivity.
+  - apply Forall_forall. intros q Hq. apply in_map_iff in Hq. destruct Hq as [q' [E Hq']]. subst.
+    rewrite Forall_forall in Hr. destruct (Hr q' Hq') as (_ & A & _). intros [F|F]; [discriminate|contradiction].
+Qed.
+
+(* ------------------------------------------------------------------ decidable forms of the hypotheses *)
+Definition avoidsb (f : Z -> bool) (t : text) : bool := forallb (fun c => negb (f c)) t.
+Definition notinb (d : Z) (t : text) : bool := negb (zmem d t).
+Definition edges_okb (t : text) : bool := negb (is_space (hd 0 t)) && negb (is_space (last t 0)).
+Definition is_nil {A} (l : list A) : bool := match l with [] => true | _ => false end.
+Definition txt_okb (brk : Z -> bool) (t : text) : bool := notinb TAB t && avoidsb brk t.
+Definition id_safeb (brk : Z -> bool) (t : text) : bool :=
+  negb (is_nil t) && txt_okb brk t && negb (hd 0 t =? HASH) && edges_okb t.
+Definition num_okb (fmt : Z -> text) (parse_num : text -> option Z) (brk : Z -> bool) (v : Z) : bool :=
+  match parse_num (fmt v) with Some v' => v' =? v | None => false end
+  && txt_okb brk (fmt v) && text_eqb (strip (fmt v)) (fmt v).
+Definition ids_tsv_safeb (brk : Z -> bool) (c : ttab) : bool :=
+  forallb (id_safeb brk) (x_oids c) && forallb (id_safeb brk) (x_sids c).
+Definition faithful_onb fmt parse_num brk (c : ttab) : bool := forallb (forallb (num_okb fmt parse_num brk)) (x_mat c).
+
+Lemma avoidsb_ok f t : avoidsb f t = true -> avoids f t.
+Proof.
+  unfold avoidsb, avoids. rewrite forallb_forall, Forall_forall. intros H c Hc.
+  specialize (H c Hc). destruct (f c); [discriminate|reflexivity].
+Qed.
+Lemma notinb_ok d t : notinb d t = true -> ~ In d t.
+Proof. unfold notinb. intros H Hin. apply zmem_In in Hin. rewrite Hin in H. discriminate. Qed.
+Lemma edges_okb_ok t : edges_okb t = true -> edges_ok t.
+Proof. unfold edges_okb, edges_ok. rewrite andb_true_iff, !negb_true_iff. tauto. Qed.
+Lemma txt_okb_ok brk t : txt_okb brk t = true -> txt_ok brk t.
+Proof. unfold txt_okb, txt_ok. rewrite andb_true_iff. intros [A B]. split; [apply notinb_ok; exact A|apply avoidsb_ok; exact B]. Qed.
+Lemma id_safeb_ok brk t : id_safeb brk t = true -> id_safe brk t.
+Proof.
+  unfold id_safeb, id_safe. rewrite !andb_true_iff, !negb_true_iff. intros [[[A B] C] D].
+  split; [destruct t; [discriminate|discriminate]|]. split; [apply txt_okb_ok; exact B|].
+  split; [apply Z.eqb_neq; exact C|apply edges_okb_ok; exact D].
+Qed.
+Lemma num_okb_ok fmt parse_num brk v : num_okb fmt parse_num brk v = true -> num_ok fmt parse_num brk v.
+Proof.
+  unfold num_okb, num_ok. rewrite !andb_true_iff. intros [[A B] C].
+  split; [|split; [apply txt_okb_ok; exact B|apply text_eqb_eq; exact C]].
+  destruct (parse_num (fmt v)) as [v'|]; [|discriminate]. apply Z.eqb_eq in A. congruence.
+Qed.
+Lemma forallb_Forall {A} (f : A -> bool) (P : A -> Prop) l :
+  (forall x, f x = true -> P x) -> forallb f l = true -> Forall P l.
+Proof. intros H Hl. rewrite forallb_forall in Hl. apply Forall_forall. intros x Hx. apply H, Hl, Hx. Qed.
+Lemma ids_tsv_safeb_ok brk c : ids_tsv_safeb brk c = true -> ids_tsv_safe brk c.
+Proof.
+  unfold ids_tsv_safeb, ids_tsv_safe. rewrite andb_true_iff. intros [A B].
+  split; eapply forallb_Forall; try eassumption; apply id_safeb_ok.
+Qed.
+Lemma faithful_onb_ok fmt parse_num brk c : faithful_onb fmt parse_num brk c = true -> faithful_on fmt parse_num brk c.
+Proof.
+  unfold faithful_onb, faithful_on. apply forallb_Forall. intros row. apply forallb_Forall. apply num_okb_ok.
+Qed.
+Lemma xwfb_xwf c : xwfb c = true -> xwf c.
+Proof.
+  unfold xwfb, xwf. rewrite !andb_true_iff, !negb_true_iff, Nat.eqb_eq, rectb_rect, !tdup_false_NoDup.
+  intros [[[[A B] C] D] E]. repeat split; try assumption.
+  destruct (x_omd c); [apply Nat.eqb_eq; exact E|trivial].
+Qed.
+
+(* ------------------------------------------------------------------ concrete witnesses *)
+Module TsvExamples.
+  (* number texts as str(numpy.float64) prints them *)
+  Definition t00 : text := [48;46;48].                                           (* 0.0 *)
+  Definition t1em7 : text := [49;101;45;48;55].                                  (* 1e-07 *)
+  Definition t17 : text := [49;46;50;51;52;53;54;55;56;57;48;49;50;51;52;53;54;55]. (* 1.2345678901234567 *)
+  Definition tm25 : text := [45;50;46;53].                                       (* -2.5 *)
+  Definition t1e300 : text := [49;101;43;51;48;48].                              (* 1e+300 *)
+  Definition ftab : list (Z * text) := [(0, t00); (1, t1em7); (2, t17); (3, tm25); (4, t1e300)].
+  Definition ptab : list (text * Z) := map (fun kv => (snd kv, fst kv)) ftab.
+  Definition fmt := tab_fmt ftab.
+  Definition parse := tab_parse ptab.
+
+  (* 3 x 2, an all-zero observation, ids with an inner blank, a quote and a non-ASCII letter *)
+  Definition c32 : ttab :=
+    mkX [[111;32;49]; [246;50]; [111;51]] [[115;49]; [115;34;50]]
+        [[1; 0]; [0; 0]; [2; 3]] None.
+  (* a single sample, a single observation, and an all-zero 1 x 1 table *)
+  Definition c21 : ttab := mkX [[111;49]; [111;50]] [[115;49]] [[4]; [0]] None.
+  Definition c13 : ttab := mkX [[111;49]] [[115;49]; [115;50]; [115;51]] [[0; 3; 0]] None.
+  Definition c11z : ttab := mkX [[111;49]] [[115;49]] [[0]] None.
+
+  Definition hyps (brk : Z -> bool) (c : ttab) : bool :=
+    xwfb c && negb (x_empty c) && ids_tsv_safeb brk c && faithful_onb fmt parse brk c.
+
+  Lemma hyps_ok brk c : hyps brk c = true ->
+    xwf c /\ x_empty c = false /\ ids_tsv_safe brk c /\ faithful_on fmt parse brk c.
+  Proof.
+    unfold hyps. rewrite !andb_true_iff, negb_true_iff. intros [[[A B] C] D].
+    split; [apply xwfb_xwf; exact A|]. split; [exact B|].
+    split; [apply ids_tsv_safeb_ok; exact C|apply faithful_onb_ok; exact D].
+  Qed.
+
+  Lemma c32_hyps : hyps brk_univ c32 = true. Proof. vm_compute. reflexivity. Qed.
+  Lemma c21_hyps : hyps brk_univ c21 = true. Proof. vm_compute. reflexivity. Qed.
+  Lemma c13_hyps : hyps brk_univ c13 = true. Proof. vm_compute. reflexivity. Qed.
+  Lemma c11z_hyps : hyps brk_univ c11z = true. Proof. vm_compute. reflexivity. Qed.
+
+  (* the same round trips by evaluation of the model *)
+  Lemma c32_runs : roundtrip fmt parse fmt_naive proc_naive brk_univ true c32 no_opts = ROk c32.
+  Proof. vm_compute. reflexivity. Qed.
+  Lemma c11z_runs : roundtrip fmt parse fmt_naive proc_naive brk_nl false c11z no_opts = ROk c11z.
+  Proof. vm_compute. reflexivity. Qed.
+
+  (* taxonomy exported through '; '.join and re-imported through sc_separated *)
+  Definition k_tax : text := [116;97;120;111;110;111;109;121].          (* taxonomy *)
+  Definition k_A : text := [107;95;95;65]. Definition p_B : text := [112;95;95;66].
+  Definition five : text := [53].
+  Definition tax1 : Tree := tList [tStr k_A; tStr p_B].
+  Definition tax2 : Tree := tList [tStr five].                          (* formats as "5": numeric-looking *)
+  Definition c22md : ttab :=
+    mkX [[111;49]; [111;50]] [[115;49]; [115;50]] [[1; 0]; [0; 3]]
+        (Some [[(k_tax, tax1)]; [(k_tax, tax2)]]).
+  Definition ptab_md : list (text * Z) := (five, 5) :: ptab.
+  Definition parse_md := tab_parse ptab_md.
+
+  Lemma c22md_runs :
+    roundtrip fmt parse_md fmt_sc proc_sc brk_univ true c22md (mkO (Some k_tax) (Some k_tax)) = ROk c22md.
+  Proof. vm_compute. reflexivity. Qed.
+
+  (* a metadata column whose every text is numeric is read as one more sample *)
+  Definition c12num : ttab := mkX [[111;49]] [[115;49]] [[1]] (Some [[(k_tax, tax2)]]).
+  Lemma numeric_md_becomes_sample :
+    roundtrip fmt parse_md fmt_sc proc_sc brk_univ false c12num (mkO (Some k_tax) (Some k_tax))
+    = ROk (mkX [[111;49]] [[115;49]; k_tax] [[1; 5]] None).
+  Proof. vm_compute. reflexivity. Qed.
+
+  (* a blank line behind the data turns the last sample into a metadata column *)
+  Lemma trailing_blank_line :
+    from_tsv parse proc_naive ([35;79;84;85;32;73;68;9;115;49;9;115;50] :: ([111;49;9] ++ t1em7 ++ [9] ++ tm25) :: [[]])
+    = ROk (mkX [[111;49]] [[115;49]] [[1]] (Some [[([115;50], tStr tm25)]])).
+  Proof. vm_compute. reflexivity. Qed.
+
+  (* the gzip reader BEFORE repair a8aadd7c (codecs.StreamReader: lines cut at every
+     str.splitlines boundary): a form feed inside an id broke the round trip *)
+  Definition c22ff : ttab :=
+    mkX [[111;12;49]; [111;50]] [[115;49]; [115;12;50]] [[1; 2]; [3; 0]] None.
+  Lemma c22ff_hyps : hyps brk_univ c22ff = true. Proof. vm_compute. reflexivity. Qed.
+  Lemma c22ff_old_gzip : roundtrip fmt parse fmt_naive proc_naive brk_gz true c22ff no_opts <> ROk c22ff.
+  Proof. vm_compute. discriminate. Qed.
+End TsvExamples.
+
+(* ------------------------------------------------------------------ statements exported to Props/C03.v *)
+Definition id_plain (t : text) : Prop :=
+  t <> [] /\ ~ In TAB t /\ ~ In NL t /\ hd 0 t <> HASH
+  /\ is_space (hd 0 t) = false /\ is_space (last t 0) = false.
+
+Lemma ids_tsv_safe_nl_means c :
+  ids_tsv_safe brk_nl c <-> (forall t, In t (x_oids c) \/ In t (x_sids c) -> id_plain t).
+Proof.
+  unfold ids_tsv_safe, id_safe, txt_ok, edges_ok, id_plain. rewrite !Forall_forall. split.
+  - intros [A B] t [H|H]; [specialize (A t H)|specialize (B t H)];
+      (destruct A as (A1 & (A2 & A3) & A4 & A5 & A6) || destruct B as (A1 & (A2 & A3) & A4 & A5 & A6));
+      apply avoids_nl in A3; tauto.
+  - intros H. split; intros t Ht; [specialize (H t (or_introl Ht))|specialize (H t (or_intror Ht))];
+      destruct H as (A1 & A2 & A3 & A4 & A5 & A6); apply avoids_nl in A3; tauto.
+Qed.
+
+Lemma faithful_on_nl_means fmt parse_num c :
+  faithful_on fmt parse_num brk_nl c <->
+  (forall row v, In row (x_mat c) -> In v row ->
+     parse_num (fmt v) = Some v /\ ~ In TAB (fmt v) /\ ~ In NL (fmt v) /\ strip (fmt v) = fmt v).
+Proof.
+  unfold faithful_on, num_ok, txt_ok. rewrite Forall_forall. split.
+  - intros H row v Hr Hv. specialize (H row Hr). rewrite Forall_forall in H.
+    destruct (H v Hv) as (A & (B & C) & D). apply avoids_nl in C. tauto.
+  - intros H row Hr. apply Forall_forall. intros v Hv. destruct (H row v Hr Hv) as (A & B & C & D).
+    apply avoids_nl in C. tauto.
+Qed.
+
+Lemma to_tsv_empty fmt format c o : x_empty c = true -> to_tsv fmt format c o = RErr E_TABLE.
+Proof. intros H. unfold to_tsv. rewrite H. reflexivity. Qed.
+
+Lemma tsv_roundtrip_nl fmt parse_num format process c keep :
+  xwf c -> x_empty c = false -> ids_tsv_safe brk_nl c -> faithful_on fmt parse_num brk_nl c ->
+  roundtrip fmt parse_num format process brk_nl keep c no_opts
+  = ROk (mkX (x_oids c) (x_sids c) (x_mat c) None).
+Proof. apply roundtrip_plain. exact good_brk_nl. Qed.
+
+Lemma tsv_roundtrip_univ fmt parse_num format process c keep :
+  xwf c -> x_empty c = false -> ids_tsv_safe brk_univ c -> faithful_on fmt parse_num brk_univ c ->
+  roundtrip fmt parse_num format process brk_univ keep c no_opts
+  = ROk (mkX (x_oids c) (x_sids c) (x_mat c) None).
+Proof. apply roundtrip_plain. exact good_brk_univ. Qed.
+
+Lemma old_gzip_refuted :
+  exists fmt parse_num c,
+    xwf c /\ x_empty c = false /\ ids_tsv_safe brk_univ c /\ faithful_on fmt parse_num brk_univ c
+    /\ roundtrip fmt parse_num fmt_naive proc_naive brk_gz true c no_opts
+       <> ROk (mkX (x_oids c) (x_sids c) (x_mat c) None).
+Proof.
+  exists TsvExamples.fmt, TsvExamples.parse, TsvExamples.c22ff.
+  destruct (TsvExamples.hyps_ok _ _ TsvExamples.c22ff_hyps) as (A & B & C & D).
+  split; [exact A|]. split; [exact B|]. split; [exact C|]. split; [exact D|]. exact TsvExamples.c22ff_old_gzip.
+Qed.
+
+Lemma numeric_metadata_not_promised :
+  exists fmt parse_num c key hv,
+    xwf c /\ x_empty c = false /\ ids_tsv_safe brk_univ c /\ faithful_on fmt parse_num brk_univ c
+    /\ roundtrip fmt parse_num fmt_sc proc_sc brk_univ false c (mkO (Some key) (Some hv))
+       = ROk (mkX (x_oids c) (x_sids c ++ [hv]) [[1; 5]] None).
+Proof.
+  exists TsvExamples.fmt, TsvExamples.parse_md, TsvExamples.c12num, TsvExamples.k_tax, TsvExamples.k_tax.
+  split; [apply xwfb_xwf; vm_compute; reflexivity|]. split; [reflexivity|].
+  split; [apply ids_tsv_safeb_ok; vm_compute; reflexivity|].
+  split; [apply faithful_onb_ok; vm_compute; reflexivity|]. exact TsvExamples.numeric_md_becomes_sample.
+Qed.
